@@ -170,14 +170,16 @@ func convertToArray(values []string, arrayType Type) ([]interface{}, error) {
 // Percent-encoded sequences are decoded per RFC 3986. Returns an error if
 // any key or value contains a malformed percent sequence.
 func ExtractRawQueryParams(path string) (map[string][]string, error) {
-	result := make(map[string][]string)
-
 	idx := strings.Index(path, "?")
 	if idx == -1 {
-		return result, nil
+		return make(map[string][]string), nil
 	}
+	return parseRawQuery(path[idx+1:])
+}
 
-	queryString := path[idx+1:]
+// parseRawQuery extracts all parameter values from a still-encoded query string.
+func parseRawQuery(queryString string) (map[string][]string, error) {
+	result := make(map[string][]string)
 	if queryString == "" {
 		return result, nil
 	}
